@@ -44,6 +44,42 @@ def make_ev(N, m, bx, via=None):
     return ev
 
 
+def query_mix(ev, N, m, lo, up, tag):
+    """Queries that must not depend on what the object was asked before: the end points asked twice, and the same x
+    asked again after an inverse query; returns messages."""
+    msgs = []
+    n = 2 ** (N * m)
+    first, last = ev.GetImage(0.5 / n), ev.GetImage((n - 0.5) / n)
+    for x, ref, name in ((0.0, first, "first"), (1.0, last, "last")):
+        for rep in (1, 2, 3):
+            y = ev.GetImage(x)
+            if not np.array_equal(y, ref):
+                msgs.append(f"{tag}: GetImage({x}) asked the {rep}. time returns {y.tolist()}, the {name} cell is {ref.tolist()}")
+                break
+    for i in sorted({0, 1, n // 3, n // 2, n - 2, n - 1}):
+        x = (i + 0.3) / n
+        y = ev.GetImage(x)
+        other = ev.GetImage(((i + n // 2) % n + 0.5) / n)
+        ev.GetInverseImage(other)
+        y2 = ev.GetImage(x)
+        ev.GetPreimages(other)
+        y3 = ev.GetImage(x)
+        if not (np.array_equal(y, y2) and np.array_equal(y, y3)):
+            msgs.append(f"{tag}: GetImage({x!r}) returns {y.tolist()}, but {y2.tolist()} / {y3.tolist()} when asked again after "
+                        f"an inverse query")
+            break
+        # two different x on either side of a subinterval border, asked one after the other
+        if i + 1 < n:
+            import math
+            xa, xb = math.nextafter((i + 1) / n, 0.0), (i + 1) / n
+            ya, yb = ev.GetImage(xa), ev.GetImage(xb)
+            if np.array_equal(ya, yb) or not np.array_equal(ya, y):
+                msgs.append(f"{tag}: GetImage({xa!r}) then GetImage({xb!r}) return {ya.tolist()} and {yb.tolist()} "
+                            f"(subintervals {i} and {i + 1}; the image of subinterval {i} is {y.tolist()})")
+                break
+    return msgs
+
+
 VIA_PAIRS = [(v, b) for v in ("B0", "B1", "B2", "B3") for b in ("B0", "B1", "B2", "B3") if v != b]
 
 
@@ -242,6 +278,9 @@ def cell_index(y, lo, up, m, tol=1e-6):
     w = (np.asarray(up, dtype=float) - lo) / 2 ** m
     c = (np.asarray(y, dtype=float) - lo) / w - 0.5
     ci = np.rint(c)
+    # a box far from the origin: the image itself carries a rounding error of a few ulp of its magnitude
+    mag = float(np.max(np.abs(np.concatenate([lo, np.asarray(up, dtype=float)]))))
+    tol = tol + 8.0 * float(np.max(np.spacing(mag) / w))
     if np.abs(c - ci).max() > tol:
         return None
     return tuple(int(v) for v in ci)
